@@ -409,7 +409,7 @@ def jobs_for(prop, tier):
         return [j for j in jobs_option_below(tier) if j[1][3] == 'combinations'] + jobs_combinations(tier)
     if prop == 'C03':
         return jobs_c03(tier) + jobs_option_reduce(tier)
-    return {'C02': jobs_c02, 'C03': jobs_c03, 'C04': jobs_c04, 'C06': jobs_c06, 'C08': (lambda t: jobs_c08(t) + jobs_numpy(t)), 'C12': jobs_numpy, 'C10': jobs_c10, 'C05': jobs_c05, 'C09': jobs_c09}.get(prop, lambda t: [])(tier)
+    return {'C02': jobs_c02, 'C03': jobs_c03, 'C04': jobs_c04, 'C06': jobs_c06, 'C08': (lambda t: jobs_c08(t) + jobs_numpy(t) + jobs_union(t)), 'C12': jobs_numpy, 'C10': jobs_c10, 'C05': jobs_c05, 'C09': jobs_c09}.get(prop, lambda t: [])(tier)
 
 
 # ------------------------------------------------------------------------------------------------ C01: getitem_next of list nodes
@@ -2168,4 +2168,149 @@ def jobs_numpy_getitem(tier):
             js.append((h_numpy_getitem, (n, s, o, 'array', k), 600))
         for step in ((1, -1, 2) if tier == 'quick' else (1, 2, 3, -1, -2)):
             js.append((h_numpy_getitem, (n, s, o, 'range', step), 600))
+    return js
+
+
+# ------------------------------------------------------------------------------------------------ C08: simplify_uniontype (union of union)
+def build_union8_64(nc, tags_c, contents, name, index_bound):
+    """UnionArray8_64 with concrete tags, symbolic index (entry i < index_bound[tag]) over the given content pointers"""
+    n = len(tags_c)
+    fo, sz, al, fields = nc.layout_of('UNI', '_ZNK7awkward12UnionArrayOfIalE6lengthEv')
+    tarr = z3.K(z3.BitVecSort(64), BV(0, 8))
+    for i, t in enumerate(tags_c):
+        tarr = z3.Store(tarr, BV(i), BV(t, 8))
+    tdata = nc.m.array(name + '_tags', ('i', 8), max(1, n), const=True, arr=tarr)
+    idata = nc.m.array(name + '_index', ('i', 64), max(1, n), const=True)
+    a0 = z3.Array(name + '_index', z3.BitVecSort(64), z3.BitVecSort(64))
+    idx = [z3.Select(a0, BV(i)) for i in range(n)]
+    for i, t in enumerate(tags_c):
+        nc.m.assume(idx[i] >= 0, idx[i] < index_bound[t])
+    cells = nc.content_header(name, nc.vptr_of('N7awkward12UnionArrayOfIalEE', 'UNI'))
+    nc.index_cells(cells, fo[1], tdata, BV(0), BV(n), mangled_T='a')
+    nc.index_cells(cells, fo[2], idata, BV(0), BV(n))
+    bufc = {}
+    for i, cp in enumerate(contents):
+        bufc[16 * i] = (cp, 8); bufc[16 * i + 8] = (NULL, 8)
+    nc.m.record(name + '_contents', bufc, const=True)
+    nb = 16 * len(contents)
+    cells.update({fo[3]: (Ptr(name + '_contents', 0), 8), fo[3] + 8: (Ptr(name + '_contents', nb), 8), fo[3] + 16: (Ptr(name + '_contents', nb), 8)})
+    return nc.m.record(name, cells, const=True), idx
+
+
+@guard
+def h_union_simplify(outer_tags, inner_tags, mergeable_pairs):
+    """simplify_uniontype of a union whose content 1 is itself a union: the nesting is removed and mergeable contents are merged, and every element is
+    still the same element of the same original content.  Contents: 0 = A (outer), inner union holds B and C; mergeable_pairs: which of B, C merge into A"""
+    nc = NodeCtx(['UNI', 'IA', 'IDX', 'CNT', 'UTL', 'KD', 'IDS', 'EA'], [], unwind=max(14, 3 * (len(outer_tags) + len(inner_tags)) + 12))
+    BASE = 1 << 32
+    kk = z3.BitVec('k!', 64)
+    lens = [nc.lencontent, nc.m.bv('lencontentB'), nc.m.bv('lencontentC')]
+    names = ['content0', 'content_B', 'content_C']
+    ptrs = [nc.content0]
+    for k in (1, 2):
+        nc.m.assume(lens[k] >= 1, lens[k] <= 2 ** 20)
+        ptrs.append(nc.new_content_in(nc.m.mem, names[k], lens[k], z3.Lambda([kk], kk + k * BASE), const=True))
+    nc.m.assume(nc.lencontent >= 1, nc.lencontent <= 2 ** 20)
+    fam = {'content0': 'A', 'content_B': 'B' if 'B' not in mergeable_pairs else 'A', 'content_C': 'C' if 'C' not in mergeable_pairs else 'A'}
+
+    def family(info_name, eng, st, p):
+        # a merged content keeps the family of its first part
+        nm, info = nc.content_info(p, st, eng)
+        return info.get('family') or fam.get(nm, nm)
+
+    def s_mergeable(eng, fr, ins, st, name, argv):
+        selfp, otherref = argv[0], argv[1]
+        other = eng.load(st, otherref, '%"class.awkward::Content"*', fr.mod, 'stub')
+        a, b = family(None, eng, st, selfp), family(None, eng, st, other)
+        return z3.BitVecVal(1 if a == b else 0, 1)
+    nc.m.eng.stubs['vf$slot%d' % nc.slot('9mergeableERKSt10shared_ptr')] = s_mergeable
+    # merge(other) = Content::merge -> mergemany({other}) on the opaque receiver: concatenation of atoms (same stub as for indexed mergemany)
+    def s_content_mergemany(eng, fr, ins, st, name, argv):
+        sret, selfp, vec = argv
+        first, finfo = nc.content_info(selfp, st, eng)
+        o = st.mem.o[vec.obj]
+        b, e = o.cells[vec.off][0], o.cells[vec.off + 8][0]
+        qb = [q for g, q in nodeh.ptr_cases(b) if q.obj is not None][0]
+        qe = [q for g, q in nodeh.ptr_cases(e) if q.obj is not None][0]
+        buf = st.mem.o[qb.obj]
+        parts = [finfo]
+        for i in range((qe.off - qb.off) // 16):
+            parts.append(nc.content_info(buf.cells[qb.off + 16 * i][0], st, eng)[1])
+        total, body, cum = BV(0), BV(-7), []
+        for info in parts:
+            cum.append(total); total = total + info['length']
+        for info, c0 in zip(parts, cum):
+            body = z3.If(kk >= c0, z3.Select(info['atoms'], kk - c0), body)
+        p = nc.fresh_content(eng, st, z3.simplify(total), z3.Lambda([kk], body), derived='merged')
+        nc.contents[p.obj]['family'] = finfo.get('family') or fam.get(first, first)
+        nc._ret(st, sret, p)
+        return None
+    nc.m.eng.stubs['vf$slot%d' % nc.slot('9mergemanyERKSt6vector')] = s_content_mergemany
+    inner, iidx = build_union8_64(nc, inner_tags, [ptrs[1], ptrs[2]], 'inner', [lens[1], lens[2]])
+    this, oidx = build_union8_64(nc, outer_tags, [ptrs[0], inner], 'node', [lens[0], BV(len(inner_tags))])
+    nc.m.record('ret', {})
+    out = nc.m.call('_ZNK7awkward12UnionArrayOfIalE18simplify_uniontypeEbb', [Ptr('ret', 0), this, z3.BitVecVal(1, 1), z3.BitVecVal(0, 1)])
+    obls = [('simplify_uniontype does not raise', out.raised)]
+    want = []
+    for i, t in enumerate(outer_tags):
+        if t == 0:
+            want.append(Elem(oidx[i]))
+        else:
+            val = BV(-9)
+            for j, it in enumerate(inner_tags):
+                val = z3.If(oidx[i] == j, iidx[j] + (1 + it) * BASE, val)
+            want.append(Elem(val))
+    rcell = nc.m.cell('ret', 0)
+    for g, res in (nodeh.decode_cases(nc, out.mem, rcell) if rcell is not None else []):
+        if res is None:
+            obls.append(('a result is returned', z3.And(g, z3.Not(out.raised))))
+            continue
+        obls += [(nm, z3.And(g, z3.Not(out.raised), c)) for nm, c in compare(value(res), want)]
+        if res['cls'] == 'union':
+            for cd in res['contents']:
+                if cd['cls'] == 'union':
+                    obls.append(('no union remains directly inside the union', g))
+            for i, (tg, ix) in enumerate(zip(res['tags'], res['index'])):
+                obls.append(('result tag %d names one of the result contents' % i, z3.And(g, z3.Or(tg < 0, tg >= len(res['contents'])))))
+                for t, cd in enumerate(res['contents']):
+                    if cd['cls'] == 'opaque':
+                        obls.append(('result index %d stays inside the content it points into' % i, z3.And(g, tg == t, z3.Or(ix < 0, ix >= cd['length']))))
+    def replay(model, ent):
+        ev = lambda t: model.eval(t, model_completion=True).as_signed_long()
+        la, lb, lcc = [max(1, min(ev(x), 40)) for x in lens]
+        ov, iv = [ev(x) for x in oidx], [ev(x) for x in iidx]
+        if max(ov + iv + [0]) >= 40:
+            return False, 'indexes too large to replay', {}
+        la, lb, lcc = max([la] + [v + 1 for v, t in zip(ov, outer_tags) if t == 0]), max([lb] + [v + 1 for v, t in zip(iv, inner_tags) if t == 0]), max([lcc] + [v + 1 for v, t in zip(iv, inner_tags) if t == 1])
+        A = list(range(0, la))
+        # real contents: A is int64; a content that merges into A is int64 too, one that does not is a list of one int / a bool array
+        def mk(kind, n, base):
+            if kind == 'int':
+                return 'i64 %s ' % fullnative.ints(range(base, base + n)), list(range(base, base + n))
+            if kind == 'list':
+                return 'i64 %s regular 1 %d ' % (fullnative.ints(range(base, base + n)), n), [[x] for x in range(base, base + n)]
+            return 'f64 %s regular 2 0 ' % fullnative.ints([float(x) for x in range(base, base + 2 * n)]) if False else ('i64 %s regular 2 %d ' % (fullnative.ints(range(base, base + 2 * n)), n)), [[base + 2 * i, base + 2 * i + 1] for i in range(n)]
+        kb = 'int' if 'B' in mergeable_pairs else 'list'
+        kc = 'int' if 'C' in mergeable_pairs else ('pair' if kb == 'list' else 'list')
+        pa, va = mk('int', la, 0)
+        pb, vb = mk(kb, lb, 1000)
+        pc2, vc = mk(kc, lcc, 2000)
+        inner_prog = pb + pc2 + 'union8_64 %d %s %s 2 ' % (len(inner_tags), ' '.join(map(str, inner_tags)), ' '.join(map(str, iv)))
+        prog = pa + inner_prog + 'union8_64 %d %s %s 2 simplify' % (len(outer_tags), ' '.join(map(str, outer_tags)), ' '.join(map(str, ov)))
+        inner_val = [(vb if t == 0 else vc)[j] for t, j in zip(inner_tags, iv)]
+        exp = [va[j] if t == 0 else inner_val[j] for t, j in zip(outer_tags, ov)]
+        return akrun_check(prog, exp, 'union(tags=%s, index=%s) over [ints, union(tags=%s, index=%s)] simplified' % (list(outer_tags), ov, list(inner_tags), iv))
+    return mdischarge(nc.m, 'UnionArray8_64::simplify_uniontype outer=%s inner=%s merges=%s' % (''.join(map(str, outer_tags)), ''.join(map(str, inner_tags)), ''.join(mergeable_pairs) or '-'), obls, [], replay=replay,
+                      prefer=[l <= 4 for l in lens],
+                      extra=dict(bounds='tags concrete (case split), union indexes and content lengths symbolic; mergeability table concrete'))
+
+
+def jobs_union(tier):
+    js = []
+    outs = [(0, 1, 1), (1, 0, 1, 1)] if tier == 'quick' else [t for n in (2, 3, 4) for t in itertools.product((0, 1), repeat=n) if 1 in t]
+    ins = [(0, 1), (1, 0, 0)] if tier == 'quick' else [t for n in (1, 2, 3) for t in itertools.product((0, 1), repeat=n)]
+    for o in outs:
+        for i in ins:
+            for mp in ((), ('B',), ('C',)):
+                js.append((h_union_simplify, (o, i, mp), 600))
     return js
